@@ -98,6 +98,7 @@ type pScenario struct {
 	Gomaxprocs int              `json:"gomaxprocs,omitempty"`
 	ParallelOK bool             `json:"parallel_ok,omitempty"`
 	Isolate    bool             `json:"isolate,omitempty"` // run in a child harness process
+	Child   bool `json:"child,omitempty"` // set by runIsolated: this process runs exactly this one scenario
 	Writes     bool             `json:"writes,omitempty"`  // report the time and size of every Write call on the output
 	Opts       pOpts            `json:"opts"`
 	Input      pInput           `json:"input"`
